@@ -15,7 +15,9 @@ RULE = ("Histories of get_scores requests (fields from a menu of single/multiple
         "freshly built Data over fresh copies of the inputs; (earlier) every array returned earlier still equals the "
         "snapshot taken when it was returned; (inputs) the input objects' arrays are unmodified. Exhaustive: all "
         "sequences of length <=3 over a 12-request menu on 3 fixed datasets; random: histories of up to 12 (quick) / "
-        "30 (thorough) steps. (repeat) the same command line run twice in one process prints identical output. "
+        "30 (thorough) steps; (near-collisions) pairs of requests that differ in exactly one component (ensemble member, "
+        "stored or ensemble-derived threshold / quantile level, field order, field, input, slice, axis) issued A, B, A, B on "
+        "one object. (repeat) the same command line run twice in one process prints identical output. "
         "Non-trivial: the history contains a 3D multi-field request followed by a request on a subset of those fields, "
         "or the same request twice with another in between; distinct by hash of (dataset, history).")
 ASSUMPTIONS = [
@@ -60,6 +62,84 @@ def pitx_strategy(tier):
         hist = draw(st.lists(req, min_size=2, max_size=6))
         return {"spec": spec, "opts": {}, "history": [list(r) for r in hist]}
     return s()
+
+
+def near_strategy(tier):
+    """Request pairs that differ in exactly ONE component (member index, threshold, quantile level, field order, input,
+    slice, axis) issued as A, B, A on one object: what a cache key that omits that component would confuse."""
+    @st.composite
+    def s(draw):
+        spec = draw(gen.dataset(max_inputs=3, min_inputs=1, clim="maybe", flavor=draw(st.sampled_from(["full", "full", "prob", "ens", "det"])),
+                                core_max=3, extra_max=1, allow_drop=False, max_members=3, allow_all_missing=False, own_obs=True,
+                                per_input_layout=draw(st.booleans())))
+        allin = spec["inputs"] + ([spec["clim"]] if spec.get("clim") else [])
+
+        def common(key):
+            out = None
+            for d in allin:
+                s_ = set(d.get(key) or [])
+                out = s_ if out is None else out & s_
+            return sorted(out or [])
+        th, qs = common("thresholds"), common("quantiles")
+        mem = min(d["members"] for d in allin) if all(d.get("ens") is not None for d in allin) else 0
+        kinds = ["order", "input", "slice", "axis", "field"]
+        if len(th) >= 2:
+            kinds += ["threshold", "threshold"]
+        if len(qs) >= 2:
+            kinds += ["quantile", "quantile"]
+        if mem >= 2:
+            kinds += ["member", "member", "member"]
+        if mem >= 1:
+            kinds += ["derived-threshold", "derived-quantile"]
+        kind = draw(st.sampled_from(kinds))
+        with_obs = draw(st.booleans())
+        pre = [("obs",)] if with_obs else []
+        a1, a2 = draw(st.sampled_from(AXES)), draw(st.sampled_from(AXES))
+        i1, i2 = draw(st.integers(0, 3)), draw(st.integers(0, 3))
+        k1, k2 = draw(st.integers(0, 5)), draw(st.integers(0, 5))
+        base = draw(st.sampled_from([[("fcst",)], [("obs",)], [("obs",), ("fcst",)]]))
+        if kind == "threshold":
+            t = draw(st.lists(st.sampled_from(th), min_size=2, max_size=2, unique=True))
+            menu, h = [pre + [("thr", t[0])], pre + [("thr", t[1])]], [[0, i1, a1, k1], [1, i1, a1, k1]]
+        elif kind == "quantile":
+            q = draw(st.lists(st.sampled_from(qs), min_size=2, max_size=2, unique=True))
+            menu, h = [pre + [("q", q[0])], pre + [("q", q[1])]], [[0, i1, a1, k1], [1, i1, a1, k1]]
+        elif kind == "member":
+            m = draw(st.lists(st.integers(0, mem - 1), min_size=2, max_size=2, unique=True))
+            menu, h = [pre + [("ens", m[0])], pre + [("ens", m[1])]], [[0, i1, a1, k1], [1, i1, a1, k1]]
+        elif kind == "derived-threshold":
+            t = draw(st.lists(st.sampled_from([0.625, -0.625, 1.375, 0.125]), min_size=2, max_size=2, unique=True))
+            menu, h = [[("obs",), ("thr", t[0])], [("obs",), ("thr", t[1])]], [[0, i1, a1, k1], [1, i1, a1, k1]]
+        elif kind == "derived-quantile":
+            q = draw(st.lists(st.sampled_from([0.3, 0.7, 0.45]), min_size=2, max_size=2, unique=True))
+            menu, h = [[("q", q[0])], [("q", q[1])]], [[0, i1, a1, k1], [1, i1, a1, k1]]
+        elif kind == "order":
+            menu, h = [[("obs",), ("fcst",)], [("fcst",), ("obs",)]], [[0, i1, a1, k1], [1, i1, a1, k1]]
+        elif kind == "field":
+            menu, h = [[("obs",)], [("fcst",)]], [[0, i1, a1, k1], [1, i1, a1, k1]]
+        elif kind == "input":
+            menu, h = [base], [[0, i1, a1, k1], [0, i2, a1, k1]]
+        elif kind == "slice":
+            menu, h = [base], [[0, i1, a1, k1], [0, i1, a1, k2]]
+        else:
+            menu, h = [base], [[0, i1, a1, k1], [0, i1, a2, k1]]
+        hist = [h[0], h[1], h[0], h[1]]
+        opts = {}
+        if draw(st.sampled_from([False, False, False, True])):
+            vals = sorted(set(v for d in spec["inputs"] if d.get("obs") for pl in d["obs"] for row in pl for v in row if v is not None)) or [0.0]
+            a, b = draw(st.sampled_from(vals)), draw(st.sampled_from(vals))
+            opts["obs_range"] = [min(a, b), max(a, b)]
+        return {"spec": spec, "opts": opts, "menu": [[list(f) for f in F] for F in menu], "history": hist, "near": kind}
+    return s()
+
+
+def run_near(case, ctx):
+    if "near" in case:
+        ctx.label("near/" + case["near"])
+    case = dict(case)
+    if case.get("menu"):
+        case["menu"] = [[tuple(f) for f in F] for F in case["menu"]]
+    return run_history(case, ctx)
 
 
 def resolve(spec, ds, menu, r):
@@ -275,6 +355,7 @@ def campaigns(tier):
         Enum("exhaustive-len3", exhaustive_items, check_exhaustive, "all request sequences of length <=3 over a 12-request menu on 3 fixed datasets"),
         Custom("stateful-machine", run_stateful, run_history, quick=320, thorough=6000, budget_quick=40, budget_thorough=900),
         Hyp("history", history_strategy, run_history, quick=1600, thorough=30000, budget_quick=50, budget_thorough=1200),
+        Hyp("near-collisions", near_strategy, run_near, quick=960, thorough=20000, budget_quick=40, budget_thorough=900),
         Hyp("history-pit-x0x1", pitx_strategy, run_history, quick=320, thorough=6000, budget_quick=40, budget_thorough=600),
         Hyp("repeat", repeat_strategy, check_repeat, quick=320, thorough=8000, budget_quick=50, budget_thorough=900),
     ]
